@@ -1170,7 +1170,7 @@ func main() {
 
 	// ---- evaluate
 	cf := hx.NewCoqFile(fmt.Sprintf("cases_C09_%d.v", o.Seed),
-		"From Coq Require Import List NArith.\nFrom Verif Require Import model.Conc gen.SharedState model.ConcCorr.\nImport ListNotations.\nOpen Scope N_scope.\n")
+		"From Coq Require Import List NArith.\nFrom Verif Require Import model.Conc gen.SharedState model.ConcCorr.\nFrom Verif Require model.FlowCache.\nImport ListNotations.\nOpen Scope N_scope.\n")
 	var caseNames []string
 	totalRaces := 0
 	raceClasses := map[string]int{}
@@ -1277,9 +1277,15 @@ func main() {
 	}
 	res.Notes = append(res.Notes, fmt.Sprintf("%d child processes x %d rounds x %d goroutines; GOMAXPROCS=%d; race detector on=%v", nProc, nRounds, nG, runtime.GOMAXPROCS(0), raceEnabled))
 
+	nLookups := 120
+	if o.Tier == "thorough" {
+		nLookups = 1500
+	}
+	lookupNames := lookupCases(r.Fork("lookups"), nLookups, cf, res)
 	cf.Add("Definition cases : list cache_obs := [" + strings.Join(caseNames, "; ") + "].")
+	cf.Add("Definition lookups : list lookup_case := [" + strings.Join(lookupNames, "; ") + "].")
 	cf.Add(fmt.Sprintf("Definition observed_races : N := %s.", hx.N(totalRaces)))
-	cf.Add("Definition M := Eval vm_compute in mismatches code_discipline observed_races cases.\nPrint M.")
+	cf.Add("Definition M := Eval vm_compute in (mismatches code_discipline observed_races cases ++ bad_lookups 0 lookups).\nPrint M.")
 	cf.Save(o, res)
 	res.Write(o)
 }
